@@ -15,7 +15,7 @@ EXPLANATION = ("arburg (and _arburg2) are executed on symbolic data vectors, eve
                "and that with an order-selection criterion (its decision replaced by an arbitrary boolean) the result is the Burg model of the returned order.")
 BOUNDS = {
     "quick": "real N in 3..5, complex N in 3..4, order <= 2; |k1|<=1 by CAD for N=3 (real), lemma for error vectors of length <= 3; criteria: order 2, N=4 real",
-    "thorough": "real N in 3..6, complex N in 3..5, order <= 2 (order 3 for N=5 real, attempted); lemma length <= 4",
+    "thorough": "real N in 3..6, complex N in 3..5, order <= 2, order 3 for N=5 real (decides in ~20 min); lemma length <= 4",
 }
 ASSUMPTIONS = ["floats modelled as exact reals", "Criteria.__call__ replaced by an arbitrary boolean (both outcomes explored)",
                "non-degenerate data: paths on which arburg itself raises ValueError (non-positive error) are its documented rejection"]
@@ -198,7 +198,7 @@ def cases(tier, seed):
                                     timeout=120 if q else 600, max_paths=16, feas_timeout=5, wall=400 if q else 2000))
     if not q:
         out.append(Case("burg:re:N=5:p=3", case_burg, dict(N=5, p=3, cplx=False), timeout=900, max_paths=16, feas_timeout=5, wall=2400))
-    for N, cplx in ([(3, False)] if q else [(3, False), (4, False), (3, True)]):
+    for N, cplx in ([(3, False)] if q else [(3, False), (4, False)]):
         out.append(Case("k1-bound:%s:N=%d" % ('cx' if cplx else 're', N), case_k1_bound, dict(N=N, cplx=cplx),
                         timeout=120 if q else 900, feas_timeout=5))
     for L, cplx in ([(1, False), (2, False), (3, False), (1, True), (2, True)] if q else
